@@ -53,7 +53,7 @@ def main(tier, seed, replay=None):
     if replay:
         return minic.replay(PID, replay)
     progs = population(tier, seed)
-    sizes = (50, 300, 100) if tier == "quick" else (100, 400, 500)
+    sizes = (35, 300, 100) if tier == "quick" else (100, 400, 500)
     nsafe = sum(1 for p in progs if p["profile"] == "c04safe")
     rc, cov = minic.run_check(PID, tier, seed, progs, "flag", sizes, assumptions=ASSUMPTIONS,
                               extra={"programs_correct_by_construction": nsafe, "programs_guard_removed": sum(1 for p in progs if p["profile"] == "c04bug")})
